@@ -100,10 +100,15 @@ def upper_8859(cct, b):
   return None
 
 
+# ISO 6937: a non-spacing diacritical mark followed by SPACE is the spacing form of the mark (those that have no ASCII position)
+SPACING_MARKS = {0xC2: "\u00b4", 0xC5: "\u00af", 0xC6: "\u02d8", 0xC7: "\u02d9", 0xC8: "\u00a8", 0xCA: "\u02da", 0xCB: "\u00b8",
+                 0xCD: "\u02dd", 0xCE: "\u02db", 0xCF: "\u02c7"}
+
+
 def printable_tokens(cct):
   """(ascii tokens, single upper tokens, pair tokens) that may be generated and are asserted for table `cct`"""
   if cct == "00":
-    pairs = [[d, ord(l)] for d in sorted(DIACRITICS) for l in DIACRITICS[d][1]]
+    pairs = [[d, ord(l)] for d in sorted(DIACRITICS) for l in DIACRITICS[d][1]] + [[d, 0x20] for d in sorted(SPACING_MARKS)] * 2
     return list(LATIN_ASCII), sorted(LATIN_UPPER), pairs
   return list(FULL_ASCII), [b for b in range(0xA0, 0x100) if upper_8859(cct, b) is not None], []
 
@@ -111,6 +116,9 @@ def printable_tokens(cct):
 def token_char(cct, t):
   """acceptable Unicode renderings (a string of alternatives) of printable token t"""
   if isinstance(t, (list, tuple)):
+    if t[1] == 0x20:
+      assert cct == "00", t
+      return SPACING_MARKS[t[0]]
     mark, letters = DIACRITICS[t[0]]
     assert cct == "00" and chr(t[1]) in letters, t
     c = unicodedata.normalize("NFC", chr(t[1]) + mark)
